@@ -36,6 +36,13 @@ def run(ctx):
         k = rng.random()
         sfx = rng.randbytes(rng.choice((1, 2, 7, 33))) if k < .5 else (c.buf[:max(1, len(c.buf) - c.rem)] if k < .85 else b'\x16\x03\x03\x00\x00')
         suffixes.append(sfx)
+    # suffixes whose length makes "bytes after the header" wrap modulo 2^16 (a truncating cast of a length would show here)
+    for c in [b for b in base if b.value is not None and len(b.buf) < 200][:(200 if ctx.thorough else 40)]:
+        for total in (65535, 65536, 65537, 65536 + 4, 65536 + 5 + 2, 65536 + 13, 65541 + len(c.buf)):
+            n = total - len(c.buf) + rng.choice((0, 0, 1, 2, 3, 4, 5))
+            if n > 0:
+                base.append(c)
+                suffixes.append(rng.randbytes(n))
     lines = [c.line for c in base] + [' '.join(c.op + (core.hexs(c.buf + s),)) for c, s in zip(base, suffixes)]
     impl, model = ctx.run_both(lines)
     N = len(base)
